@@ -364,6 +364,11 @@ func runC13(c *mon.Ctx) {
 					}
 					return false
 				},
+				// methods are case-sensitive tokens: what was signed is the upper-case one
+				"method-other-case": func(w *wireReq) bool {
+					w.method = gen.Pick(tr, []string{strings.ToLower(w.method), strings.Title(strings.ToLower(w.method))})
+					return true
+				},
 				"path-append":  func(w *wireReq) bool { p, q, _ := strings.Cut(w.uri, "?"); w.uri = p + "x"; if q != "" { w.uri += "?" + q }; return true },
 				"path-prefix":  func(w *wireReq) bool { w.uri = "/extra" + w.uri; return true },
 				"query-add":    func(w *wireReq) bool { if strings.Contains(w.uri, "?") { w.uri += "&admin=1" } else { w.uri += "?admin=1" }; return true },
@@ -471,7 +476,8 @@ func runC13(c *mon.Ctx) {
 				},
 				// every parameter occurs once: a second origin / destination / key / sig in front of the real one
 				"header-repeated-parameter": func(w *wireReq) bool {
-					decoy := gen.Pick(tr, []string{`origin="` + other + `"`, `destination="somewhere.else.example"`, `key="ed25519:zzz"`, `sig="AAAA"`})
+					decoy := gen.Pick(tr, []string{`origin="` + other + `"`, `destination="somewhere.else.example"`, `key="ed25519:zzz"`, `sig="AAAA"`,
+						`origin=""`, `origin=`, `destination=""`, `key=""`, `sig=""`, `sig=`})
 					w.setHeader("Authorization", "X-Matrix "+decoy+","+strings.TrimPrefix(xm.String(), "X-Matrix "))
 					return true
 				},
@@ -502,6 +508,21 @@ func runC13(c *mon.Ctx) {
 					} else {
 						w.headers = append(w.headers, [2]string{"Authorization", x.String()})
 					}
+					return true
+				},
+				// a second line whose origin is the first one's in another letter case: another origin (or, to a reader that
+				// folds case, the same one - then with a key of its own); never a reason to fall over
+				"header-second-line-origin-in-another-case": func(w *wireReq) bool {
+					x := xm
+					x.origin = strings.ToUpper(xm.origin[:1]) + xm.origin[1:]
+					if x.origin == xm.origin {
+						x.origin = strings.ToUpper(xm.origin)
+					}
+					if x.origin == xm.origin {
+						return false
+					}
+					x.key = "ed25519:other"
+					w.headers = append(w.headers, [2]string{"Authorization", x.String()})
 					return true
 				},
 				"header-conflicting-origins": func(w *wireReq) bool {
